@@ -173,6 +173,38 @@ func (r *runner) exec(c *call) string {
 		_, err := e.st.PutObject(ctx, bucket, keyOf(c.K), nil, bytes.NewReader(contentBytes(c.C)), nil,
 			&storage.PutObjectOptions{StorageClass: classOpt(e, c.S)})
 		return errRes(err)
+	case "PutBegin":
+		if r.sc.slowActive {
+			return "skipped"
+		}
+		k, cc, s := c.K, c.C, c.S
+		go func() {
+			_, err := e.st.PutObject(context.WithValue(ctx, slowKey, true), bucket, keyOf(k), nil, bytes.NewReader(contentBytes(cc)), nil,
+				&storage.PutObjectOptions{StorageClass: classOpt(e, s)})
+			r.sc.slowCh <- msg{gate: "done", err: err}
+		}()
+		select {
+		case m := <-r.sc.slowCh:
+			if m.gate == "parked" {
+				r.sc.slowActive = true
+				return "ok"
+			}
+			return errRes(m.err)
+		case <-time.After(stepTimeout):
+			die("slow put did not reach its gate within %v", stepTimeout)
+		}
+	case "PutCommit":
+		if !r.sc.slowActive {
+			return "skipped"
+		}
+		r.sc.slowRel <- struct{}{}
+		select {
+		case m := <-r.sc.slowCh:
+			r.sc.slowActive = false
+			return errRes(m.err)
+		case <-time.After(stepTimeout):
+			die("slow put did not commit within %v", stepTimeout)
+		}
 	case "Delete":
 		_, err := e.st.DeleteObject(ctx, bucket, keyOf(c.K), nil)
 		return errRes(err)
@@ -378,6 +410,10 @@ func (e *env) partRange(k string, j int) (int64, int64, bool) {
 
 // drain lets a parked collector / reader run to completion (logged as steps).
 func (r *runner) drain() {
+	if r.sc.slowActive {
+		c := call{Op: "PutCommit"}
+		r.emit(c, r.step(&c))
+	}
 	for r.rdSt != "idle" {
 		op := "RdClose"
 		if r.rdSt == "open" {
@@ -432,7 +468,19 @@ func (r *runner) runProgram(p program) {
 			if r.rdSt != "idle" {
 				continue
 			}
+		case "Put", "Delete", "Copy", "Transition", "CreateUpload", "UploadPart", "UploadPartCopy", "Complete", "Abort",
+			"Orphan", "RegDrop", "RegOver", "PutBegin":
+			if r.sc.slowActive {
+				continue // would wait for the writer lock of the parked slow put
+			}
+		case "PutCommit":
+			if !r.sc.slowActive {
+				continue
+			}
 		case "Gc":
+			if r.sc.slowActive && r.sc.gcNeedsLock() {
+				continue
+			}
 			// a collector pass always starts with every minted part older than the
 			// grace window, otherwise its cutoff would depend on timing (the real pass
 			// may need fewer steps than the model's, so a generated "Gc" can start one)
